@@ -682,6 +682,9 @@ func (f *Frame) equal(st *State, a, b Val, n ast.Node) string {
 	}
 	if isNil(a) {
 		// b == nil
+		if isCutType(b.Ty) {
+			return fmt.Sprintf("(= %s %s)", b.T, f.c.sorts.Zero(b.Ty))
+		}
 		switch u := b.Ty.Underlying().(type) {
 		case *types.Pointer:
 			if isBigInt(b.Ty) {
@@ -707,6 +710,9 @@ func (f *Frame) equal(st *State, a, b Val, n ast.Node) string {
 			return fmt.Sprintf("(%s %s)", fn, b.T)
 		default:
 			_ = u
+			if isCutType(b.Ty) {
+				return fmt.Sprintf("(= %s %s)", b.T, f.c.sorts.Zero(b.Ty))
+			}
 			f.unsupported(n, "comparison of %v with nil", b.Ty)
 		}
 	}
@@ -819,6 +825,23 @@ func splitSexpArgs(s string) []string {
 	return out
 }
 
+// intoCut converts a value stored into a field whose sort sits behind a recursion cut (an opaque sort):
+// the zero value maps to the cut sort's zero, anything else through an uninterpreted injection.
+func (f *Frame) intoCut(fl StructField, nv Val) string {
+	if !isCutType(fl.Type) || nv.Ty == nil || isCutType(nv.Ty) {
+		return nv.T
+	}
+	rs := f.c.sorts.SortOf(nv.Ty)
+	if rs == fl.Sort {
+		return nv.T
+	}
+	if nv.T == f.c.sorts.Zero(nv.Ty) {
+		return f.c.sorts.Zero(fl.Type)
+	}
+	fn := f.c.uf("cutinj_"+sanitize(fl.Sort), []string{rs}, fl.Sort)
+	return fmt.Sprintf("(%s %s)", fn, nv.T)
+}
+
 // withField returns the struct value v with field name replaced.
 func (f *Frame) withField(v Val, name string, nv Val, n ast.Node) Val {
 	ss := f.c.sorts.StructOf(v.Ty)
@@ -830,7 +853,7 @@ func (f *Frame) withField(v Val, name string, nv Val, n ast.Node) Val {
 	f.c.sorts.markUsed(ss.Sort, name)
 	for _, fl := range ss.Fields {
 		if fl.Name == name {
-			parts = append(parts, nv.T)
+			parts = append(parts, f.intoCut(fl, nv))
 			found = true
 		} else {
 			parts = append(parts, selectField(fl.Sel, ss, v.T))
